@@ -155,6 +155,27 @@ def run(ctx):
         ok, path = cfg.must_happen_before_exit(f, is_wl)
         ctx.check(ok and len(wl) >= 1, "R10.4", f, "filter-consulted-on-every-path",
                   "a path through the stream constructor (B%s) does not ask logger::will_log: the configured runtime filter is bypassed for that statement" % "->B".join(map(str, path or [])), f)
+        # the filter judges the record as the statement wrote it: everything the constructor puts into the record (tag,
+        # severity, ...) is in place before will_log is asked - no record attribute is set after the verdict
+        def mutates_record(e):
+            for n in elem_calls(e):
+                if short(n.get("name") or "") == "will_log":
+                    continue
+                for a in n.get("args", []):
+                    if fmt(ir.unwrap(a)) in ("(*r)", "r.operator*()", "*r"):
+                        return True
+                th = n.get("this")
+                if th is not None and fmt(ir.unwrap(th)) in ("(*r)", "r") and n.get("arrow") and short(n.get("name") or "") not in ("reset", "get", "operator bool"):
+                    return True
+            return False
+        late = []
+        for (b, i, e) in wl:
+            for (b2, i2, e2) in cfg.find_elems(f, mutates_record):
+                if (b2, i2) != (b, i) and cfg.reaches_without(f, (b, i), lambda x, t=e2: x is t, lambda x: False) is not None:
+                    late.append(e2)
+        ctx.check(not late, "R10.4", f, "filter-sees-complete-record",
+                  "the record is still being filled in after will_log was asked (%s): a filter that looks at that attribute judges an incomplete record, so statements it must reject are "
+                  "accepted and formatted" % ", ".join("line %s: %s" % (x.get("ln"), x.get("text", "")[:50]) for x in late), f)
         twice = any(cfg.reaches_without(f, (b, i), is_wl, lambda x: False) is not None for (b, i, e) in wl)
         ctx.check(not twice, "R10.4", f, "filter-consulted-once", "will_log can be evaluated twice for one statement", f)
         # the buffer is created only under will_log true; the record is released under false
@@ -195,6 +216,21 @@ def run(ctx):
         for (bid, i, e, n) in logs:
             okg = bool(cfg.dominated_by_edge(f, bid, lambda c: fmt(c) in ("r", "r.operator bool()", "(r != nullptr)", "static_cast<bool>(r)")))
             ctx.check(okg, "R10.4", f, "emits-only-with-record", "logger::log is reached without the `if (r)` test: a rejected or moved-from stream object would emit", (f, n.get("ln")))
+        # ... and whenever the record exists: the only way around logger::log is the "no record" edge
+        is_r = lambda c: fmt(c) in ("r", "r.operator bool()", "(r != nullptr)", "static_cast<bool>(r)")
+
+        def no_record_edge(b, to, lab, f=f):
+            c = f.term(b).get("cond")
+            if c is None:
+                return True
+            c2, neg = cfg.strip_not(c)
+            if is_r(c2):
+                return lab != ("true" if neg else "false")  # do not follow the edge on which there is no record
+            return True
+        is_log = lambda e: any(short(n.get("name") or "") == "log" for n in elem_calls(e))
+        oka, path = cfg.must_happen_before_exit(f, is_log, edge_ok=no_record_edge)
+        ctx.check(oka, "R10.4", f, "emits-whenever-record", "the destructor can return (B%s) with a record in hand and without calling logger::log: an accepted statement is dropped on that path "
+                  "(a condition other than `is there a record` decides about emission)" % "->B".join(map(str, path or [])), f)
     # who may call
     lg_fns = [f for f in prog.fns.values() if f.has_cfg and f.is_pattern and f.file.endswith("/nitro/log/logger.hpp")]
     logf = [f for f in lg_fns if f.name == "log"]
